@@ -24,7 +24,7 @@ def generate_cases(out):
             cases.append(json.loads(json.loads('"' + m.group(1) + '"')))
     out.cov["states"] += res["distinct"]
     out.cov["transitions"] += res["states"]
-    out.cov["model_runs"].append({"config": "Ndl.tla tree family (count x destination form x port form x message x networks x forwarder x argument order x ARP)",
+    out.cov["model_runs"].append({"config": "Ndl.tla tree family (count x destination form x port form x message x networks x forwarder (same / other port) x argument order x ARP; ping-pong pairs)",
                                   "distinct_states": res["distinct"], "complete": True})
     return cases
 
@@ -47,8 +47,12 @@ def run_ndl(prop, tier, seed, out):
     d = workdir("fn-" + prop)
     log("[%s] Ndl.tla: TLC enumerates the description trees, renders them and computes the expected structure" % prop)
     cases = generate_cases(out)
-    if tier == "quick":
-        cases = cases[::4] if prop == "C19" else cases[::8]
+    if tier == "quick" and prop != "C19":
+        # C14: a seeded random quarter of the family (a fixed stride would alias with the dimensions of the family);
+        # C19 runs the whole family in both tiers (it takes half a minute)
+        import random
+        rng = random.Random(seed)
+        cases = [cases[i] for i in sorted(rng.sample(range(len(cases)), len(cases) // 4))]
     cp = os.path.join(d, "ndl-cases.ndjson")
     write_ndjson(cp, cases)
     tmp = os.path.join(d, "tmp")
@@ -78,7 +82,7 @@ def run_c14_parts(tier, seed, out):
 
 def run(prop, tier, seed, out, replay=None):
     out.level = "exploration"
-    out.assumptions = ["the tree family of Ndl.tla is finite (1-2 networks, 2-3 machines, counts 1-3, send_message / forward / capture, optional ARP)",
+    out.assumptions = ["the tree family of Ndl.tla is finite (1-2 networks, 2-3 machines, counts 1-3, send_message / forward / capture / ping_pong, optional ARP)",
                        "semantic errors of a description (unknown names, unavailable addresses) are outside the property: the generator asserts on them"]
     if replay:
         r = json.load(open(replay))
@@ -92,6 +96,6 @@ def run(prop, tier, seed, out, replay=None):
         judge(out, prop, a[a.index("--out") + 1], a)
         return
     run_ndl("C19", tier, seed, out)
-    out.cov["rule"] = ("every tree of the Ndl.tla family (quick: every 4th) in tab / 4-space / CRLF renderings, parsed twice; five one-error mutants per tree; "
+    out.cov["rule"] = ("every tree of the Ndl.tla family in tab / 4-space / CRLF renderings, parsed twice; five one-error mutants per tree; "
                        "every description also built and run; distinct = trees")
-    out.cov["exhaustive"] = tier == "thorough"
+    out.cov["exhaustive"] = True
